@@ -269,7 +269,7 @@ func prepareFiles(cfg *config.Config) (files []string, err error) {
 			}
 			return nil
 		}
-		if !utils.IsGoFile(path) {
+		if !cfg.IsTargetFile(path) {
 			return nil
 		}
 		// skip goat_generated.go
